@@ -84,6 +84,8 @@ fn random_graph(rng: &mut Rng) -> Graph {
     let family = rng.below(10);
     let k = match family {
         0 => 1,
+        // one cycle in four is long: around the sizes where a bounded walk or a pre-sized stack would stop looking
+        1 if rng.chance(1, 4) => *rng.pick(&[31usize, 32, 33, 48, 63, 64, 65, 66, 70, 100, 127, 128, 129, 130, 200, 255, 256, 257, 300]),
         1 | 2 => 2 + rng.below(9),
         _ => 1 + rng.below(6),
     };
